@@ -144,15 +144,15 @@ def stashPushStaged (g : G) : Res G :=
   else .outside
 
 /-- `git stash pop --index`: re-applies the top entry to the index and the work tree and drops it.
-    Conflict-free when every path the entry changes is, in HEAD, index and work tree, still what
-    it was in the entry's base. -/
+    Real git refuses (and resets the index) unless the index equals HEAD; it is conflict-free when
+    moreover every path the entry changes is, in HEAD and work tree, still what it was in the
+    entry's base. -/
 def stashPopIndex (g : G) : Res G :=
   match g.stash with
   | [] => .fail
   | e :: rest =>
-    if (Tree.diffNames e.base e.idx).all (fun p =>
-          g.headTree.find? p == e.base.find? p && g.index.find? p == e.base.find? p
-          && g.wt.find? p == e.base.find? p) then
+    if diffCached g = [] && (Tree.diffNames e.base e.idx).all (fun p =>
+          g.headTree.find? p == e.base.find? p && g.wt.find? p == e.base.find? p) then
       let ch := fun p => e.base.find? p != e.idx.find? p
       .ok { g with stash := rest, index := Tree.pick ch e.idx g.index, wt := Tree.pick ch e.idx g.wt }
     else .outside
@@ -181,6 +181,9 @@ def gitCommit (g : G) (msg : String) (hookOk : Bool) : Res G :=
     match g.head with
     | .branch b => .ok { g with commits := g.commits ++ [o], refs := (b, c) :: g.refs.filter (fun r => r.1 != b) }
     | .detached _ => .ok { g with commits := g.commits ++ [o], head := .detached c }
+
+/-- `git reset --quiet`: the index becomes HEAD's tree, the work tree is kept -/
+def gitReset (g : G) : G := { g with index := g.headTree }
 
 /-- `git checkout <ref>` of an existing branch: paths that differ between the two trees are
     rewritten in index and work tree; they must be clean. -/
@@ -220,8 +223,9 @@ def stashUserStagedFiles (g : G) : Res (G × List Path) :=
   else .ok (g, staged)
 
 /-- `git_commit_xvc_files` (the part of `git_auto_commit` between stash and unstash):
-    optional `checkout -b`, `git add --verbose`, return early when nothing was added, `git commit`.
-    The Boolean is `true` for `Ok(())`. -/
+    optional `checkout -b`, `git add --verbose`, return early when nothing was added, `git commit`;
+    when the commit fails the added files are unstaged again (`git reset --quiet`), because
+    `git stash pop --index` needs a clean index.  The Boolean is `true` for `Ok(())`. -/
 def gitCommitXvcFiles (spec : Path → Bool) (g : G) (msg : String) (toBranch : Option String)
     (hookOk : Bool) : G × Bool :=
   let co : Res G := match toBranch with
@@ -233,7 +237,7 @@ def gitCommitXvcFiles (spec : Path → Bool) (g : G) (msg : String) (toBranch : 
     if added = [] then (g2, true)                          -- "No files to commit"
     else match gitCommit g2 msg hookOk with
       | .ok g3 => (g3, true)
-      | _ => (g2, false)
+      | _ => (gitReset g2, false)
   | _ => (g, false)                                          -- `exec_git(... checkout -b ...)?`
 
 /-- `git_auto_commit` (after C15-F4.patch): stash the user's staged files, commit xvc's files,
@@ -334,5 +338,15 @@ def xvcCommand (spec : Path → Bool) (cfg : Cfg) (skipGit : Bool) (msg : String
     (toBranch : Option String) (g : G) (phases : List (Change × Bool)) : Out :=
   if skipGit then ⟨{ g with wt := phases.foldl (fun t ph => t.apply ph.1) g.wt }, .ok⟩
   else runPhases spec cfg msg toBranch g phases
+
+/-- `dispatch_with_root`: an optional `--from-ref` checkout first (`uwr!` ends the process when it
+    fails), then the command. -/
+def xvcInvocation (spec : Path → Bool) (cfg : Cfg) (skipGit : Bool) (msg : String)
+    (fromRef toBranch : Option String) (g : G) (phases : List (Change × Bool)) : Out :=
+  match fromRef with
+  | some r =>
+    let o := gitCheckoutRef g r
+    if o.status = .ok then xvcCommand spec cfg skipGit msg toBranch o.g phases else o
+  | none => xvcCommand spec cfg skipGit msg toBranch g phases
 
 end Git
